@@ -14,7 +14,7 @@
 (*    on the real code by the Go harness, whose trace is validated by       *)
 (*    TraceGrants.tla.                                                      *)
 (***************************************************************************)
-EXTENDS Grants, Json, OpsLib
+EXTENDS Grants, Json, OpsLib, SequencesExt
 
 CONSTANTS Family,     \* which alphabet: "C01", "C02", ...
           Cfgs,       \* set of configurations (records) explored from Init
@@ -57,6 +57,18 @@ CanMint == Count(st.S.at) < MaxAT /\ Count(st.S.rt) < MaxRT
 Full == <<"openid", "offline", "a">>
 TickOps == IF st.now < MaxNow THEN {Tick} ELSE {}
 
+(* ---- refinement of the family core (FamilyCore.tla, whose invariant Apalache shows inductive) ---- *)
+FCrt == [j \in 1..MaxRT |-> IF ~Has(st.S.rt, j) THEN "free"
+                            ELSE IF st.S.rt[j].present /\ st.S.rt[j].active THEN "active"
+                            ELSE IF st.S.rt[j].why = "rotated" THEN "used" ELSE "dead"]
+FCfam == [j \in 1..MaxRT |-> IF Has(st.S.rt, j) THEN st.S.rt[j].rid ELSE 0]
+FCat == [j \in 1..MaxRT |-> Has(st.S.rt, j) /\ \E i \in DOMAIN st.S.at :
+                              st.S.at[i].present /\ st.S.at[i].via = "token" /\ st.S.at[i].ep = st.S.rt[j].ep]
+FCkilled == {st.S.rt[j].rid : j \in {x \in DOMAIN st.S.rt : st.S.rt[x].why \in {"reuse", "replay", "revoked"}}}
+FC == INSTANCE FamilyCore WITH N <- MaxRT, M <- 24, rt <- FCrt, fam <- FCfam, at <- FCat, killed <- FCkilled
+FCInv == FC!IndInv
+FCRefines == [][FC!Next \/ UNCHANGED <<FCrt, FCfam, FCat, FCkilled>>]_vars
+
 (* ---- alphabets ------------------------------------------------------------ *)
 OpsC01 ==   \* code single use; replay after refreshes; hybrid codes; other grants interleaved
   (IF CanAuthz THEN {Authz(c, rt, Full, Full, <<>>, "sent", "none") : c \in {"A", "B"}, rt \in {"code", "code_token", "code_idt_token"}} ELSE {})
@@ -82,7 +94,7 @@ OpsC02 ==   \* client / redirect / lifetime binding; smuggled parameters; grant 
 Verifiers == {"none", "right", "wrong", "short", "long", "illegal", "other"}
 OpsC03 ==   \* PKCE: every sequence of attempts on a code
   (IF CanAuthz THEN {Authz(c, rt, <<"offline", "a">>, <<"offline", "a">>, <<>>, "sent", pk) :
-        c \in {"A", "P"}, rt \in {"code", "code_token"}, pk \in {"none", "S256", "plain", "plain_nm"}} ELSE {})
+        c \in {"A", "P"}, rt \in {"code", "code_token"}, pk \in {"none", "S256", "plain", "plain_nm", "plain_short"}} ELSE {})
   \cup (IF CanMint THEN {Redeem(Owner(k), "ok", k, "same", v, <<>>, <<>>) : k \in Codes, v \in Verifiers} ELSE {})
 
 OpsC04 ==   \* rotation and reuse over several grants of different origin
@@ -101,11 +113,11 @@ OpsC05 ==   \* refresh never widens, never crosses clients; issuance rule
   (IF CanAuthz THEN {Authz(c, "code", <<"openid", "offline", "a", "b">>, gr, au, "sent", "none") :
         c \in {"A", "P"}, gr \in {Full, <<"a", "b">>, <<"offline", "b">>}, au \in {<<>>, <<AudA>>, <<AudA, AudB>>}} ELSE {})
   \cup (IF CanMint THEN {Redeem(Owner(k), "ok", k, "same", "none", <<>>, <<>>) : k \in {x \in Codes : st.S.code[x].active}} ELSE {})
-  \cup (IF CanMint THEN {Password("A", "ok", "ok", sc, <<>>) : sc \in {<<"a">>, <<"offline", "a">>}} ELSE {})
+  \cup (IF CanMint THEN {Password("A", "ok", "ok", sc, au) : sc \in {<<"a">>, <<"offline", "a">>}, au \in {<<>>, <<AudA>>}} ELSE {})
   \cup (IF CanMint THEN {Refresh(c, a, j, xs, xa) : j \in RTs, c \in {"A", "B", "P"}, a \in {"ok", "bad"},
               xs \in {<<>>, <<"b", "openid", "offline">>}, xa \in {<<>>, <<AudB>>}} ELSE {})
   \cup {ClientChange(c, f[1], f[2]) : c \in {"A", "P"},
-          f \in {<<"rm_scope", "b">>, <<"rm_scope", "offline">>, <<"rm_aud", AudA>>, <<"rm_grant", "refresh_token">>, <<"restore", "">>}}
+          f \in {<<"rm_scope", "b">>, <<"rm_scope", "offline">>, <<"rm_aud", AudA>>, <<"rm_aud", AudB>>, <<"rm_aud", "*">>, <<"rm_grant", "refresh_token">>, <<"restore", "">>}}
 
 OpsC05b ==  \* the refresh-token ISSUANCE rule in every flow that can issue one: refresh scopes x client grant types
   (IF CanAuthz THEN {Authz(c, rt, sc, sc, <<>>, "sent", "none") : c \in {"A", "P"}, rt \in {"code", "code_token"}, sc \in {<<"offline", "a">>, <<"a">>}} ELSE {})
@@ -136,6 +148,8 @@ OpsC08 ==   \* revocation: every token, every hint, owner / foreign / unauthenti
   \cup (IF CanMint THEN {Refresh(st.S.rt[j].client, "ok", j, <<>>, <<>>) : j \in RTs} ELSE {})
   \cup {Revoke(c, a, "rt", j, h) : j \in RTs, c \in {"A", "B"}, a \in {"ok", "bad", "none"}, h \in {"rt", "at", "bad", "none"}}
   \cup {Revoke(c, a, "at", i, h) : i \in ATs, c \in {"A", "B"}, a \in {"ok", "bad"}, h \in {"rt", "at", "none"}}
+  \cup {Revoke("P", "ok", "rt", j, h) : j \in RTs, h \in {"rt", "none"}}      \* a foreign PUBLIC client (identified, no secret)
+  \cup {Revoke("P", "ok", "at", i, h) : i \in ATs, h \in {"at", "none"}}
   \cup {Revoke("A", "ok", "unk", 0, h) : h \in {"rt", "none"}}
   \cup TickOps
 
@@ -150,6 +164,7 @@ OpsC09 ==   \* introspection endpoint: callers, hints, required scopes, over sta
           kind \in {"at"}, t \in ATs, h \in {"at", "rt", "none"}, need \in {<<>>, <<"a">>, <<"b">>}}
   \cup {Introspect("A", "basic", 0, "rt", t, h, need) : t \in RTs, h \in {"at", "rt", "bad"}, need \in {<<>>, <<"offline">>, <<"b">>}}
   \cup {Introspect("A", caller, n, "at", t, "none", <<>>) : caller \in {"bearer", "self"}, n \in ATs, t \in ATs}
+  \cup {Introspect("A", "bearer_rt", n, "at", t, "none", <<>>) : n \in RTs, t \in ATs}
   \cup {Introspect("A", "basic", 0, "unk", 0, "none", <<>>)}
   \cup TickOps
 
@@ -175,11 +190,17 @@ OpsC17 ==   \* pushed authorization requests
   \cup (IF CanMint THEN {Redeem(Owner(k), "ok", k, "same", "none", <<>>, <<>>) : k \in {x \in Codes : st.S.code[x].active}} ELSE {})
   \cup TickOps
 
+OpsC17b ==  \* the life of ONE request_uri over a longer history: use, second use, use after every age, by either client
+  (IF Count(st.S.par) < MaxPar THEN {Push("A", "ok", rt, <<"offline", "a">>, <<>>, "sent", "none", 0) : rt \in {"code", "code_token"}} ELSE {})
+  \cup (IF CanAuthz THEN {UsePar(c, "own", u, "none") : c \in {"A", "B"}, u \in Pars} ELSE {})
+  \cup (IF CanMint THEN {Redeem(Owner(k), "ok", k, "same", "none", <<>>, <<>>) : k \in {x \in Codes : st.S.code[x].active}} ELSE {})
+  \cup TickOps
+
 Ops ==
   CASE Family = "C01" -> OpsC01 [] Family = "C02" -> OpsC02 [] Family = "C03" -> OpsC03
     [] Family = "C04" -> OpsC04 [] Family = "C05" -> OpsC05 [] Family = "C05b" -> OpsC05b [] Family = "C07" -> OpsC07
     [] Family = "C08" -> OpsC08 [] Family = "C09" -> OpsC09 [] Family = "C16" -> OpsC16
-    [] Family = "C17" -> OpsC17
+    [] Family = "C17" -> OpsC17 [] Family = "C17b" -> OpsC17b
     [] OTHER -> OpsC01 \cup OpsC04 \cup OpsC08 \cup OpsC16 \cup OpsC17
 
 Init == /\ \E c \in Cfgs : st = InitState(c)
@@ -208,5 +229,10 @@ TypeOK ==
 View == <<st, stepok>>
 
 (* generation: print every complete history *)
-EmitHist == (Emit /\ (IF EmitAll THEN Len(hist) > 0 ELSE Len(hist) = Depth)) => PrintT(<<"HIST", ToJson([cfg |-> st.cfg, ops |-> hist])>>)
+(* operations of the alphabet that leave the abstract state as it is (refused attempts, pure queries): the state
+   cover cannot end in one of them -- their successor is never a new state -- so they are printed with the witness
+   of the state and appended to it by the generator *)
+Inert == {op \in Ops : Apply(st, op).st = st}
+EmitHist == (Emit /\ (IF EmitAll THEN Len(hist) > 0 ELSE Len(hist) = Depth)) =>
+              PrintT(<<"HIST", ToJson([cfg |-> st.cfg, ops |-> hist, tail |-> IF EmitAll THEN SetToSeq(Inert) ELSE <<>>])>>)
 =============================================================================
